@@ -409,4 +409,45 @@ theorem circle_diameter_spec (α1 δ1 α2 δ2 α3 δ3 s12 s13 s23 : ℝ)
       simp only [hsel, hsel2, Bool.false_eq_true, if_false]
       exact circle_core h23a h23b l12 l13 u23 (by linarith)
 
+/-! ### a direction determines its coordinates -/
+
+/-- Two directions with the same unit vector have the same coordinates, when the latitudes are proper
+    (one of them strictly inside (-90°, 90°)) and the longitudes are less than a turn apart. -/
+theorem dir_inj {l1 b1 l2 b2 : ℝ} (hb1 : -90 < b1 ∧ b1 < 90) (hb2 : -90 ≤ b2 ∧ b2 ≤ 90)
+    (hl : |l1 - l2| < 360) (h : dir l1 b1 = dir l2 b2) : l1 = l2 ∧ b1 = b2 := by
+  have hp : 0 < π / 180 := by positivity
+  unfold dir at h
+  have h3 : sin (rad b1) = sin (rad b2) := congrArg (fun v : V3 => v.2.2) h
+  have h1 : cos (rad b1) * cos (rad l1) = cos (rad b2) * cos (rad l2) := congrArg (fun v : V3 => v.1) h
+  have h2 : cos (rad b1) * sin (rad l1) = cos (rad b2) * sin (rad l2) := congrArg (fun v : V3 => v.2.1) h
+  have m1 : rad b1 ∈ Set.Icc (-(π / 2)) (π / 2) := by
+    unfold rad; constructor <;> nlinarith [hb1.1, hb1.2, pi_pos]
+  have m2 : rad b2 ∈ Set.Icc (-(π / 2)) (π / 2) := by
+    unfold rad; constructor <;> nlinarith [hb2.1, hb2.2, pi_pos]
+  have hb : rad b1 = rad b2 := injOn_sin m1 m2 h3
+  have hbb : b1 = b2 := by unfold rad at hb; exact mul_right_cancel₀ hp.ne' hb
+  have hc := cos_rad_pos hb1
+  rw [← hb] at h1 h2
+  have c1 : cos (rad l1) = cos (rad l2) := mul_left_cancel₀ hc.ne' h1
+  have s1 : sin (rad l1) = sin (rad l2) := mul_left_cancel₀ hc.ne' h2
+  have hcos : cos (rad l1 - rad l2) = 1 := by
+    rw [cos_sub, c1, s1]; linear_combination sin_sq_add_cos_sq (rad l2)
+  obtain ⟨n, hn⟩ := (cos_eq_one_iff _).mp hcos
+  have hlt : |rad l1 - rad l2| < 2 * π := by
+    have : rad l1 - rad l2 = (l1 - l2) * (π / 180) := by unfold rad; ring
+    rw [this, abs_mul, abs_of_pos hp]
+    calc |l1 - l2| * (π / 180) < 360 * (π / 180) := mul_lt_mul_of_pos_right hl hp
+      _ = 2 * π := by ring
+  have hn0 : n = 0 := by
+    rw [← hn, abs_lt] at hlt
+    have h2pi : 0 < 2 * π := by positivity
+    have a1 : (-1 : ℝ) < n := by nlinarith [hlt.1]
+    have a2 : (n : ℝ) < 1 := by nlinarith [hlt.2]
+    have a1' : (-1 : ℤ) < n := by exact_mod_cast a1
+    have a2' : n < (1 : ℤ) := by exact_mod_cast a2
+    omega
+  rw [hn0] at hn
+  have : rad l1 = rad l2 := by simp at hn; linarith
+  unfold rad at this
+  exact ⟨mul_right_cancel₀ hp.ne' this, hbb⟩
 end Pymeeus.Refine.Coords
